@@ -180,10 +180,29 @@ structure PTok where
   opt : Bool
   deriving Repr
 
-def runToks (mh : Bool) (run : List Nat) : List PTok :=
+/-- `extra` = how many more run-final hyphens than the last one may be fused: every following
+    append with an EMPTY text (a show inside a pending `/ActualText` scope, an empty fragment) leaves
+    the accumulator ending in the next hyphen, which the next line-wrap append fuses again. -/
+def runToks (mh : Bool) (run : List Nat) (extra : Nat := 0) : List PTok :=
   let n := run.length
+  let trail := (run.reverse.takeWhile (· == HY)).length
+  let optN := min trail (1 + extra)
   (List.range n).zip run |>.filterMap fun (i, c) =>
-    if isWs c then none else some { c := c, opt := mh && i + 1 == n && c == HY }
+    if isWs c then none else some { c := c, opt := mh && n ≤ i + optN && c == HY }
+
+/-- number of appends with an empty text (other than `/ActualText` flushes, which never fuse)
+    directly after the current one -/
+def emptyAppsAhead : List Ev → Nat
+  | [] => 0
+  | .app k [] :: r => (if k == .none then 0 else 1) + emptyAppsAhead r
+  | .app _ _ :: _ => 0
+  | _ :: r => emptyAppsAhead r
+
+def emptyFragsAhead : List Ev → Nat
+  | [] => 0
+  | .frag [] :: r => 1 + emptyFragsAhead r
+  | .frag _ :: _ => 0
+  | _ :: r => emptyFragsAhead r
 
 /-- pattern of the flat text from the events.  A run-final hyphen is certainly fused when the very
     next accumulating event is a `'`/`"` show (and no budget can refuse it). -/
@@ -193,14 +212,16 @@ def flatPattern (mh : Bool) (noBudget : Bool) : List Ev → List PTok
     let nextIsNl := match r.find? (fun e => match e with | .frag _ => false | _ => true) with
       | some (.app .nl _) => true
       | _ => false
-    let toks := runToks mh txt
-    let toks := if mh && noBudget && nextIsNl && endsWithHy txt then toks.dropLast else toks
+    let extra := emptyAppsAhead r
+    let toks := runToks mh txt extra
+    -- certain fusion only claimed in the simple case (no chain of empty appends behind it)
+    let toks := if mh && noBudget && nextIsNl && endsWithHy txt && extra == 0 then toks.dropLast else toks
     toks ++ flatPattern mh noBudget r
   | _ :: r => flatPattern mh noBudget r
 
 def fragPattern (mh : Bool) : List Ev → List PTok
   | [] => []
-  | .frag txt :: r => runToks mh txt ++ fragPattern mh r
+  | .frag txt :: r => runToks mh txt (emptyFragsAhead r) ++ fragPattern mh r
   | _ :: r => fragPattern mh r
 
 def canonical (p : List PTok) : List Nat := p.map (·.c)
